@@ -382,6 +382,8 @@ func (p *plugin) stop() error {
 
 // Name returns a string indentication for the plugin.
 func (p *plugin) name() string {
+	p.Lock()
+	defer p.Unlock()
 	return p.idx + "-" + p.base
 }
 
@@ -392,10 +394,13 @@ func (p *plugin) qualifiedName() string {
 	} else {
 		kind = "pre-connected"
 	}
-	if idx = p.idx; idx == "" {
+	p.Lock()
+	idx, base = p.idx, p.base
+	p.Unlock()
+	if idx == "" {
 		idx = "??"
 	}
-	if base = p.base; base == "" {
+	if base == "" {
 		base = "plugin"
 	}
 	return kind + ":" + idx + "-" + base + "[" + strconv.Itoa(p.pid) + "]"
@@ -412,8 +417,10 @@ func (p *plugin) RegisterPlugin(ctx context.Context, req *RegisterPluginRequest)
 			p.regC <- fmt.Errorf("plugin %q registered invalid index: %w", req.PluginName, err)
 			return &RegisterPluginResponse{}, fmt.Errorf("invalid plugin index: %w", err)
 		}
+		p.Lock()
 		p.base = req.PluginName
 		p.idx = req.PluginIdx
+		p.Unlock()
 	}
 
 	log.Infof(ctx, "plugin %q registered as %q", p.qualifiedName(), p.name())
